@@ -18,6 +18,9 @@ and one tuple of read options O = (columns, categories, index):
               rg.num_rows == len(pf[i].to_pandas()) for every row group (once per handle)
     override  ParquetFile(path, dtypes=D): pf.dtypes == D (+ categories) and the read realises D;
               to_pandas(dtypes=D): columns and dtypes of the result are D's.
+    handle    the same contract for a handle restored from a pickle, copied with copy.copy, or selected with pf[:]
+              (what the handle predicts must survive the round trip together with what the read needs, e.g. timezones).
+Datasets: runtime.ds_read QUICK + TZ (tz-aware datetime columns as data and as written index) + foreign fixtures.
 """
 import concurrent.futures as cf
 import itertools
@@ -34,7 +37,8 @@ G = "c17.meta_vs_read"
 CONTRACT = ("pf.columns / dtypes / _dtypes(categories) / categories / cats / _get_index() / count() / info / per-row-group "
             "num_rows equal column order, dtypes, categorical, partition and index columns and shape of pf.to_pandas(**opts)")
 
-DATASETS = list(D.QUICK)
+DATASETS = list(D.QUICK) + list(D.TZ)
+HANDLES = ["open", "pickle", "copy", "getitem"]
 FOREIGN = ["nation.plain.parquet", "nation.impala.parquet", "snappy-nation.impala.parquet", "gzip-nation.impala.parquet",
            "datapage_v2.snappy.parquet", "decimals.parquet", "empty.parquet", "foo.parquet", "metas.parq", "mr_times.parq",
            "test-null.parquet", "test-null-dictionary.parquet", "test-converted-type-null.parquet",
@@ -65,6 +69,17 @@ def _pyval(v):
     if isinstance(v, np.generic):
         return v.item()
     return v
+
+def make_handle(pf, kind):
+    """the handle under contract: as opened, restored from a pickle, copied, or the all-row-groups selection"""
+    import copy, pickle
+    if kind == "pickle":
+        return pickle.loads(pickle.dumps(pf))
+    if kind == "copy":
+        return copy.copy(pf)
+    if kind == "getitem":
+        return pf[:]
+    return pf
 
 def check_meta(pf, opts, per_rg=False):
     """None or a message.  `opts`: kwargs of to_pandas among columns / categories / index."""
@@ -188,6 +203,7 @@ def check_override_read(pf, override):
 _ns = {}
 exec(CHECK_SRC, _ns)
 check_meta, check_override_open, check_override_read = _ns["check_meta"], _ns["check_override_open"], _ns["check_override_read"]
+make_handle = _ns["make_handle"]
 
 
 def option_tuples(fp, ds, tier):
@@ -216,11 +232,16 @@ def option_tuples(fp, ds, tier):
         catopts.append(("empty_list", []))
     ixopts = [("None", None), ("False", False)]
     if not ds.foreign and len(pf.row_groups):
+        ntz = 0
         for c in data:
             k = str(dt.get(c))
-            if k.startswith("datetime64") or k.startswith("<M8") or "M8" in k:
+            if isinstance(dt.get(c), pd.DatetimeTZDtype):
+                ntz += 1
+                if ntz <= 2:        # tz-aware datetime columns as the index (first two zones)
+                    ixopts.append(("tz_datetime_column" + ("" if ntz == 1 else str(ntz)), c))
+            elif (k.startswith("datetime64") or k.startswith("<M8") or "M8" in k) and \
+                    not any(n == "datetime_column" for n, _ in ixopts):
                 ixopts.append(("datetime_column", c))
-                break
         if catcols:
             ixopts.append(("categorical_column", catcols[0]))
     out = []
@@ -279,24 +300,26 @@ def run_dataset(args):
             "written_index": ds.index_kind if not ds.foreign else "file"}
     first = {}
     masked = {c for c, v in pf0.dtypes.items() if isinstance(v, pd.core.arrays.masked.BaseMaskedDtype)}
-    for feats, okw, opts in option_tuples(fp, ds, tier):
-        f = dict(base, **feats)
+    for (feats, okw, opts), handle in itertools.product(option_tuples(fp, ds, tier), HANDLES):
+        f = dict(base, handle=handle, override_has_tz=False, **feats)
         # columns whose dtype the library decides from the null statistics (no pandas metadata): nullable under
         # pandas_nulls=True, float64 under pandas_nulls=False
         f["reads_stat_nullable_int"] = bool(masked & set(opts.get("columns") or pf0.columns)) and not base["pandas_md"]
         try:
-            pf = ds.open(fp, **okw)
-            per_rg = not first.get(okw["pandas_nulls"]) and not opts
+            pf = make_handle(ds.open(fp, **okw), handle)
+            per_rg = not first.get((okw["pandas_nulls"], handle)) and not opts
             if per_rg:
-                first[okw["pandas_nulls"]] = True
+                first[(okw["pandas_nulls"], handle)] = True
             what = check_meta(pf, opts, per_rg=per_rg)
         except Exception as e:
             what = "%s: %s" % (type(e).__name__, str(e)[:200])
-        res.append((f, what is None, what, rows > 0, ("meta", ds.name, okw, opts)))
+        res.append((f, what is None, what, rows > 0, ("meta", ds.name, (okw, handle), opts)))
     if not ds.foreign or ds.name in ("foreign:test.parquet", "foreign:decimals.parquet", "foreign:datapage_v2.snappy.parquet"):
         for oname, c, o in overrides(fp, ds):
             for mode in ("open", "read"):
-                f = dict(base, columns="all", categories="None", index="None", pandas_nulls=True, dtypes=mode + ":" + oname)
+                f = dict(base, handle="open", columns="all", categories="None", index="None", pandas_nulls=True, dtypes=mode + ":" + oname)
+                # the override dict (natural dtypes, one column changed) names a tz-aware datetime dtype
+                f["override_has_tz"] = any(isinstance(v, pd.DatetimeTZDtype) for v in o.values())
                 try:
                     if mode == "open":
                         what = check_override_open(fp, ds.path, o)
@@ -311,11 +334,11 @@ def run_dataset(args):
 def _snippet(kind, dsname, a, b):
     if kind == "meta":
         body = CHECK_SRC + '''
-pf = fastparquet.ParquetFile(path, **%r)
+pf = make_handle(fastparquet.ParquetFile(path, **%r), %r)
 msg = check_meta(pf, %r, per_rg=True)
 print("difference:", msg)
 VIOLATED = msg is not None
-''' % (a, b)
+''' % (a[0], a[1], b)
     elif kind == "override_open":
         body = CHECK_SRC + '''
 msg = check_override_open(fastparquet, path, %r)
@@ -338,6 +361,10 @@ def run_bounded(ctx):
         "permuted pair, partition+data, partition only, without the categorical} x categories {None, list, dict, []} "
         "x index {None, False, a datetime column, a categorical column} (named-index options only on own files; "
         "non-datetime/non-categorical named indexes and MultiIndex are C06's known findings and not used here) + "
+        "x handle {as opened, pickle.loads(pickle.dumps(pf)), copy.copy(pf), pf[:]}; the TZ datasets carry tz-AWARE "
+        "datetime64 columns (Europe/London, UTC, Asia/Kolkata) as data and as the written index (single file v1 multi-page / "
+        "hive partitioned v2) and add index {first, second tz-aware column} - predicted dtypes are compared INCLUDING the "
+        "timezone with the dtypes of the columns and of the index of the frame read; + "
         "dtype overrides {int64->float64, float64->float32} given to ParquetFile(dtypes=) and to "
         "to_pandas(dtypes=); per-row-group counts once per handle. distinct = (dataset, option tuple); nontrivial "
         "= dataset has rows." % (DATASETS, FOREIGN)))
